@@ -13,4 +13,15 @@ Chars(s)    == CHOOSE cs \in Seq(STRING) : TRUE
 Unchars(cs) == CHOOSE s \in STRING : TRUE
 CharCode(c) == CHOOSE n \in Int : TRUE
 HexBytes(s) == CHOOSE bs \in Seq(0..255) : TRUE
+
+(* s repeated n times (pure definition; overridden for speed) *)
+RECURSIVE RepDef(_, _)
+RepDef(s, n) == IF n <= 0 THEN "" ELSE s \o RepDef(s, n - 1)
+Rep(s, n) == RepDef(s, n)
+
+DigitChar == <<"0", "1", "2", "3", "4", "5", "6", "7", "8", "9">>
+(* the digits of the little-endian digit sequence a, from most significant position i to j (1-based), as a string *)
+RECURSIVE MsdStrDef(_, _, _)
+MsdStrDef(a, i, j) == IF i > j THEN "" ELSE DigitChar[a[Len(a) - i + 1] + 1] \o MsdStrDef(a, i + 1, j)
+MsdStr(a, i, j) == MsdStrDef(a, i, j)
 =============================================================================
